@@ -308,6 +308,7 @@ impl Property for C01 {
         // server as source the client randomness is then IDENTICAL across thresholds)
         gen.relatives = ctx.ch.chance(1, 2);
         gen.entropy_burst = 30;
+        gen.entropy_failure = 15;
         // size-dependent paths: every 16th run carries payloads beyond 64 KiB; in thorough every
         // 40th run has a threshold above 256 (needs as many clients)
         if ctx.ch.chance(1, 24) {
